@@ -77,11 +77,11 @@ static void addrtab_check_n(int mode) {
 
   int64_t d1 = int64_t(p1 - (base + 6));
   if (bad_opcode && d1 != int64_t(int32_t(d1))) {
-    V_ASSERT(err == Error::kInvalidRelocEntry, "a far target at something that is not jmp/call rel32 is refused");
+    V_ASSERT(err == Error::kInvalidRelocEntry, "a far target at something that is not jmp or call rel32 is refused");
     V_WITNESS("addrtab-not-jmp-call");
     return;
   }
-  V_ASSERT(err == Error::kOk, "jmp/call to any absolute target is relocatable (rel32 or address table)");
+  V_ASSERT(err == Error::kOk, "jmp or call to any absolute target is relocatable (rel32 or address table)");
 
   const uint8_t* im = sbuf[0];  // .text is at image offset 0
   if (IMAGE) {
@@ -100,11 +100,11 @@ static void addrtab_check_n(int mode) {
     int64_t rel = int64_t(int32_t(uint32_t(load_le(im + at + 2, 4))));
     if (im[at + 1] == op) {  // not rewritten (the rewrite always changes the opcode byte)
       V_ASSERT(im[at] == rex, "rel32 form: prefix byte kept");
-      V_ASSERT(next_ip + uint64_t(rel) == target, "rel32 form: next instruction + rel32 is the absolute target");
+      V_ASSERT(next_ip + uint64_t(rel) == target, "rel32 form: next instruction plus rel32 is the absolute target");
     }
     else {
       via[k] = true;
-      V_ASSERT(im[at] == 0xFF && im[at + 1] == (op == 0xE8 ? 0x15 : 0x25), "far target: call becomes FF /2, jmp becomes FF /4 (rip-relative)");
+      V_ASSERT(im[at] == 0xFF && im[at + 1] == (op == 0xE8 ? 0x15 : 0x25), "far target: call becomes FF 15, jmp becomes FF 25 (rip-relative indirect)");
       uint64_t slot_addr = next_ip + uint64_t(rel);
       uint64_t slot_off = slot_addr - base;  // offset of the slot inside the image
       V_ASSERT(slot_off >= tab_off && slot_off - tab_off < 8 * n_ent && ((slot_off - tab_off) & 7) == 0, "far target: disp32 designates a slot inside the reserved address table");
